@@ -988,7 +988,14 @@ class Mrq(SampleBatch):
 
         from rl_blox.algorithm.mrq import mrq_loss
 
-        N, _ = self.dims()
+        N, H_ = self.dims()
+        # process history inside the item (see NStep.setup): the n-step helper is first used with another discount
+        try:
+            from rl_blox.blox.return_estimates import discounted_n_step_return
+
+            discounted_n_step_return(jnp.ones((N, H_), dtype=jnp.float32), jnp.zeros((N, H_), dtype=jnp.int32), 0.37)
+        except Exception:  # noqa: BLE001 - the decoy is not under test
+            pass
         self.nets = _tiny_mrq(self.item["seed"])
         enc, enc_t, q, q_t = self.nets
         g = self.item["gamma"]
